@@ -8,6 +8,8 @@ From Coq Require Import List NArith.
 From Goit Require Import Bytes World Repo MonadFacts.
 From Goit Require Import Inv ConnectedFacts.
 From Goit Require Import Bridge.
+From Goit Require Import Refs BranchFacts.
+From Goit Require FaultReachFacts CrashBranchFacts.
 Import ListNotations.
 
 (* T0 (tie to the source): every regexp literal of the current Go source denotes
@@ -53,3 +55,25 @@ Print Assumptions C16_failure_is_reported.
 Print Assumptions C16_no_failure_no_difference.
 Print Assumptions C16_fault_safe.
 Print Assumptions C16_source_patterns_are_the_models.
+
+(* "Afterwards the repository is still connected ...": also when the history goes on.  The world a
+   failed command stops in belongs to the closure FReachable (commands, valid edits, failed
+   commands), on which C15_invariants_after_crashes_and_faults gives every invariant of the
+   fault-free histories; in particular a further command, failing or not, starts from a world with
+   those invariants again *)
+Theorem C16_failed_command_stays_in_the_closure : forall e c k w r s',
+  FaultReachFacts.FReachable w -> run_cmd e c (mkMS w [] (Some k)) = (r, s') ->
+  FaultReachFacts.FReachable (ms_w s').
+Proof. exact FaultReachFacts.FRf. Qed.
+
+(* "no branch has been advanced to a commit that lacks ...": in the world a failed command stops in,
+   every branch holds what it held before or what the fault-free run installs *)
+Theorem C16_fault_branch_old_or_new : forall h e c k r s' n id,
+  Forall action_ok h ->
+  run_cmd e c (mkMS (run h w_empty) [] (Some k)) = (r, s') ->
+  am_get (w_refs (ms_w s')) n = Some id ->
+  am_get (w_refs (run h w_empty)) n = Some id \/
+  am_get (w_refs (run (h ++ [ACmd e c]) w_empty)) n = Some id.
+Proof. exact CrashBranchFacts.reachable_fault_branch_old_or_new. Qed.
+Print Assumptions C16_failed_command_stays_in_the_closure.
+Print Assumptions C16_fault_branch_old_or_new.
